@@ -327,6 +327,17 @@ def _sub(o):
 
 
 def directed_ops(u, rnd):
+    """never lets a corrupted implementation state (a child listed twice, ...) stop the generation: the state is what the
+    checks are there to judge"""
+    try:
+        return _directed_ops(u, rnd)
+    except common.MachineryError:
+        raise
+    except Exception:  # noqa
+        return None
+
+
+def _directed_ops(u, rnd):
     """near-miss calls instantiated on the current state: every pattern lists the calls on which a validation of a setter
     differs from a shallower, id-based or later-placed version of itself (each came from a defect or a seeded change)"""
     T = u.tasks
@@ -525,7 +536,12 @@ def random_case(prop, rng, tier):
     tail = rng.randrange(3, 10) if focused else rng.randrange(10, 31 if tier == 'quick' else 41)
     for _ in range(tail):
         d = directed_ops(u, rng) if focused and rng.random() < 0.8 else None
-        op = u.concretise(d if d is not None else steer(u, rand_op(u, rng), rng, 0.75 if focused else 0.35))
+        try:
+            op = u.concretise(d if d is not None else steer(u, rand_op(u, rng), rng, 0.75 if focused else 0.35))
+        except common.MachineryError:
+            raise
+        except Exception:  # noqa  (generation on a corrupted state: fall back to a state-independent call)
+            op = ['setParent', rng.randrange(m), None]
         case['ops'].append(op)
         try:
             u.apply(op)
@@ -662,7 +678,12 @@ def mutate(prop, case, rng):
         except Exception:  # noqa
             pass
     for _ in range(rng.randrange(1, 8)):
-        op = u.concretise(steer(u, rand_op(u, rng), rng))
+        try:
+            op = u.concretise(steer(u, rand_op(u, rng), rng))
+        except common.MachineryError:
+            raise
+        except Exception:  # noqa
+            op = ['setParent', rng.randrange(u.m), None]
         ops.append(op)
         try:
             u.apply(op)
